@@ -68,6 +68,18 @@ def heap_account(v, trace, res):
             prev, hist = [], []
             e["_hist"] = hist
             continue
+        if e["op"] == "Drop":           # the object read back from the command line is forgotten again
+            prev = prev[:-1]
+            e["_hist"] = list(hist)
+            continue
+        if e["op"] == "Cli":            # the command-line twin of the NEXT step of the history (harness/heap_cli.go)
+            inner = e["a"]["op"]
+            e["_hist"] = hist + [{"op": inner, "recv": e["recv"], "a": e["a"]["a"]}]
+            if v.prop in OP_PROPS.get(inner, ()) or v.prop == "C11":
+                v.count_case(vf.digest(["Cli", inner, e["a"]["a"], prev]))
+                v.sample({"history": e["h"], "step": e["i"], "command": e["a"]["argv"], "fronts": inner, "outcome": e["kind"]})
+            prev = abstract(e["objs"])
+            continue
         hist.append({"op": e["op"], "recv": e["recv"], "a": e["a"]})
         e["_hist"] = list(hist)
         cur = abstract(e["objs"])
@@ -84,6 +96,16 @@ def heap_account(v, trace, res):
     lineage_pass(evs)
     for b in res.get("bad", []):
         e = evs[b["i"] - 1]
+        if e["op"] == "Cli":
+            inner = e["a"]["op"]
+            mine = [c for c in b["failing"] if v.prop in OP_PROPS.get(inner, ()) or v.prop == "C11"]
+            if os.environ.get("VERIF_DEBUG"):
+                vf.log("bad: Cli %s %s %s argv=%s msg=%s" % (inner, b["failing"], e["kind"], e["a"]["argv"], e.get("msg", "")[:200]))
+            if mine:
+                v.finding({"op": "Cli:" + inner, "failing": sorted(mine), "kind": e["kind"], "args": e["a"]["a"], "command": e["a"]["argv"],
+                           "history": e["h"], "step": e["i"], "msg": e.get("msg", "")[:300]},
+                          {"family": "heap", "cli": True, "script": {"id": e["h"], "steps": e["_hist"]}})
+            continue
         if "frame" in b["failing"] and e.get("_alias_ok"):
             # every changed object is connected to the receiver through operations that the property does not
             # require to copy (Sample, Append, ...): sharing is the code's documented-by-behaviour meaning there
@@ -130,6 +152,12 @@ def lineage_pass(evs):
     for e in evs:
         if e["op"] == "Reset":
             edges, prev = [], []
+            continue
+        if e["op"] == "Drop":
+            prev = prev[:-1]
+            continue
+        if e["op"] == "Cli":
+            prev = abstract(e["objs"])
             continue
         cur = abstract(e["objs"])
         recv = e["recv"]
@@ -214,6 +242,7 @@ def heap_gen_validate(work, v, profile, depth, scope="quick", simulate=None, see
     for part in split_trace(work, trace, 300000):
         res = vf.tlc_trace(work, "Trace_Heap", part, timeout=3000, heap="12g")
         heap_account(v, part, res)
+    return cases
 
 
 def split_trace(work, trace, maxev):
@@ -234,6 +263,47 @@ def split_trace(work, trace, maxev):
         cur += 1
     out.close()
     return parts
+
+
+def cli_histories(work, trace):
+    """Keeps the histories of a heap trace in which a step was also run through the command line."""
+    out = work.fresh("clitrace", ".ndjson")
+    nh = nc = 0
+    with open(out, "w") as f:
+        cur, has = [], False
+        def flush():
+            nonlocal nh
+            if has:
+                f.writelines(cur)
+                nh += 1
+        for line in open(trace):
+            if '"op":"Reset"' in line:
+                flush()
+                cur, has = [], False
+            if '"op":"Cli"' in line:
+                has = True
+                nc += 1
+            cur.append(line)
+        flush()
+    return out, nh, nc
+
+
+def heap_cli_validate(work, v, profile, every, seed, tier, cases=None, n=0, maxcmds=0):
+    """The command-line front (harness/heap_cli.go): the same histories, a sampled subset of their steps also run through
+    `goalign <command>` built from /repo, judged by the transition of the operation the command fronts."""
+    import cli as clilib
+    if not getattr(work, "goalign", None):
+        work.goalign = clilib.build_cli(work)
+    trace = vf.drive(work, "heap", cases=cases, n=n, seed=seed, mode=profile, tier=tier, timeout=3000,
+                     env={"VERIF_GOALIGN": work.goalign, "VERIF_CLI_EVERY": every, "VERIF_CLI_MAX": maxcmds})
+    part, nh, nc = cli_histories(work, trace)
+    if nc == 0:
+        raise vf.ToolingError("no step of profile %s was run through the command line" % profile)
+    vf.log("cli front: %d commands in %d histories" % (nc, nh))
+    for p in split_trace(work, part, 300000):
+        res = vf.tlc_trace(work, "Trace_Heap", p, timeout=3000, heap="12g")
+        heap_account(v, p, res)
+    v.notes.append("command-line front: %d goalign commands judged by the transitions of the operations they front" % nc)
 
 
 def heap_random_validate(work, v, mode, n, seed, tier):
@@ -259,14 +329,22 @@ def run_mc(work, v, module, tier, timeout=1500):
     v.add_mc(vf.tlc_mc(work, module, cfg, workers=8, timeout=timeout), "mc:" + module)
 
 
-def heap_pipeline(profile, quick, thorough, mc=None):
+CLI_DEFAULT = ((5, 400, 50), (1, 20000, 1500))
+
+
+def heap_pipeline(profile, quick, thorough, mc=None, cli=CLI_DEFAULT):
     """quick/thorough: dicts with keys depth, sim (num, depth), rand (n)."""
     def run(work, v, tier, seed):
         p = quick if tier == "quick" else thorough
         vf.build_driver(work)
         for m in (mc or []):
             run_mc(work, v, m, tier)
-        heap_gen_validate(work, v, profile, p["depth"], scope=p.get("scope", "quick"))
+        cases = heap_gen_validate(work, v, profile, p["depth"], scope=p.get("scope", "quick"))
+        if cli:
+            # the command-line front: a sample of the generated histories and random ones, their steps also run through goalign
+            every, maxcmds, nrand = cli[0 if tier == "quick" else 1]
+            heap_cli_validate(work, v, profile, every, seed, tier, cases=cases, maxcmds=maxcmds)
+            heap_cli_validate(work, v, profile, 1, seed, tier, n=nrand)
         if p.get("sim"):
             num, d = p["sim"]
             heap_gen_validate(work, v, profile, d, scope=p.get("scope", "quick"), simulate=num, seed=seed, label="sim")
@@ -289,7 +367,11 @@ def replay(work, v, prop, path):
         cases = work.fresh("replay", ".ndjson")
         with open(cases, "w") as f:
             f.write(json.dumps(rp["script"]) + "\n")
-        trace = vf.drive(work, "heap", cases=cases)
+        env = None
+        if rp.get("cli"):       # the failing step was the command-line twin of the last step of the script
+            import cli as clilib
+            env = {"VERIF_GOALIGN": clilib.build_cli(work), "VERIF_CLI_EVERY": 1}
+        trace = vf.drive(work, "heap", cases=cases, env=env)
         res = vf.tlc_trace(work, "Trace_Heap", trace)
         heap_account(v, trace, res)
         return v.finish()
@@ -330,7 +412,7 @@ PIPELINES["C19"] = heap_pipeline("C19", quick=dict(depth=2, rand=250), thorough=
 
 
 def _c10(work, v, tier, seed):
-    heap_pipeline("C10", quick=dict(depth=1, rand=200), thorough=dict(depth=1, rand=3000))(work, v, tier, seed)
+    heap_pipeline("C10", quick=dict(depth=1, rand=200), thorough=dict(depth=1, rand=3000), cli=None)(work, v, tier, seed)
     # support (every admissible elementary outcome is observed) and seed replay on small instances
     trace = vf.drive(work, "heap", seed=seed, mode="C10sup", tier=tier)
     res = vf.tlc_trace(work, "Trace_Heap", trace)
